@@ -99,7 +99,9 @@ func (w *walker) walk(path string, v reflect.Value) {
 			return
 		}
 		w.visited[k] = true
-		w.walk(path+"*", v.Elem())
+		// the pointee starts a fresh path named after its visit number: paths stay short
+		// on deep linked structures (a 1000-node list would otherwise cost O(n^2) text)
+		w.walk(fmt.Sprintf("#%d", len(w.visited)), v.Elem())
 	case reflect.Interface:
 		if v.IsNil() {
 			w.line(path, "iface:nil")
